@@ -13,6 +13,12 @@ def PyErr.tag : PyErr → String
   | .typeError => "TypeError"
   | .zeroDivisionError => "ZeroDivisionError"
 
+instance {ε α} [DecidableEq ε] [DecidableEq α] : DecidableEq (Except ε α)
+  | .ok a, .ok b => if h : a = b then isTrue (by rw [h]) else isFalse (fun e => h (by injection e))
+  | .error a, .error b => if h : a = b then isTrue (by rw [h]) else isFalse (fun e => h (by injection e))
+  | .ok _, .error _ => isFalse (fun e => by injection e)
+  | .error _, .ok _ => isFalse (fun e => by injection e)
+
 /-- Python `seq[i]` for an integer index: negative indices count from the end; out of range raises `IndexError` -/
 def pyGetItem {α} (l : List α) (i : Int) : Except PyErr α :=
   let k : Int := if i < 0 then i + l.length else i
